@@ -71,6 +71,8 @@ def run(rep, tier, seed, replay):
         bare = f["post"] != "none" and re.fullmatch(r"\(cat@\d+\+\d+ \(tree@\d+\+\d+ 0\)\)", f.get("tokens", "")) is not None
         reqs.append("LC %s %s" % (hexs(P.impl[k]["pattern"]), hexs(joined_pattern(prefix, postp, bare))))
     frag = P.model_cmd("F", [k for k, _, _, _ in jobs])
+    # the postfix is a glob of its own: its compiled program may deviate from the documented language too
+    fpost = dict(zip([k for k, _, _, _ in jobs], m.ask(["F " + (f["post"] if f["post"] != "none" else "-") for _, f, _, _ in jobs])))
     res = h.ask(reqs)
     for (k, f, prefix, reproduced), line in zip(jobs, res):
         e = exprs[k]
@@ -104,10 +106,11 @@ def run(rep, tier, seed, replay):
             if w is not None:
                 inp["path"] = w
             tag = classify(e, f, P.impl[k], kind)
-            if kind == "language" and tag != "K-PART-FLAG-ROOTED-TREE" and frag[k].startswith("out:"):
-                # the compiled program of the glob itself deviates from the documented language (C01's findings)
-                known = [t for t in frag[k][4:].split(",") if t in finding_ids]
-                tag = known[0] if known else frag[k][4:]
+            enc = [t for fr in (frag[k], fpost[k]) if fr.startswith("out:") for t in fr[4:].split(",")]
+            if kind == "language" and tag != "K-PART-FLAG-ROOTED-TREE" and enc:
+                # the compiled program of the glob itself, or of the postfix, deviates from the documented language (C01's findings)
+                known = [t for t in enc if t in finding_ids]
+                tag = known[0] if known else ",".join(enc)
             if not reproduced:
                 rep.violation("oracle", "partition deviates (%s) and the partition model does not reproduce it" % text, inp, impl=pi[k][:300])
             elif tag in finding_ids:
